@@ -28,6 +28,14 @@ type c07History struct {
 	Steps []c07Step `json:"steps"`
 }
 
+// c07Idx: index name of a history step; a leading dot stays in front (names like .ds-logs-app are ordinary indexes)
+func c07Idx(i string) string {
+	if strings.HasPrefix(i, ".") {
+		return ".c07" + i[1:]
+	}
+	return "c07" + i
+}
+
 func c07Ev(k int, members string) string { return c01Event(k, T0+int64(k), members) }
 
 func c07Histories(tier string) []c07History {
@@ -41,7 +49,7 @@ func c07Histories(tier string) []c07History {
 		{"H3 flush then rotate", false, []c07Step{ing("a", 0, `"d":"x","n":1`), ing("a", 1, `"d":"x","n":2.5`), fl, rot}},
 		{"H4 new segment after rotation", false, []c07Step{ing("a", 0, `"d":"x","n":1`), ing("a", 1, `"d":"y","n":2`), fl, rot, ing("a", 2, `"d":"z","n":3,"late":"q"`), fl}},
 		{"H5 rotate, flush, rotate", false, []c07Step{ing("a", 0, `"d":"x","n":1`), fl, rot, ing("a", 1, `"d":"y","n":2`), fl, rot}},
-		{"H6 two indexes interleaved", false, []c07Step{ing("a", 0, `"d":"x","n":1`), ing("b", 1, `"d":"y","m":"foo"`), fl, ing("a", 2, `"d":"z","n":2`), fl, rot}},
+		{"H6 two indexes interleaved", false, []c07Step{ing("a", 0, `"d":"x","n":1`), ing(".b", 1, `"d":"y","m":"foo"`), fl, ing("a", 2, `"d":"z","n":2`), fl, rot}}, // the second index has a dot-prefixed name
 		{"H7 persistent query registered", true, []c07Step{ing("a", 0, `"d":"x","n":1`), fl, {Op: "query", Index: "a", Text: "d=x"}, {Op: "query", Index: "a", Text: "d=x"},
 			{Op: "query", Index: "a", Text: "* | stats count by d"}, ing("a", 1, `"d":"x","n":2`), ing("a", 2, `"d":"y","n":3`), fl, rot}},
 	}
@@ -120,7 +128,7 @@ func c07Record(h *c07History, rep *kernel.Report) (ops []*kernel.FsOp, dir strin
 	for _, st := range h.Steps {
 		switch st.Op {
 		case "ingest":
-			if err := ingestStep(w, 0, "c07"+st.Index, []string{st.Event}); err != nil {
+			if err := ingestStep(w, 0, c07Idx(st.Index), []string{st.Event}); err != nil {
 				return nil, dir, cleanup, err
 			}
 			_ = w.Call("mark", map[string]interface{}{"text": "INGEST_ACK"}, nil)
@@ -132,7 +140,7 @@ func c07Record(h *c07History, rep *kernel.Report) (ops []*kernel.FsOp, dir strin
 			}
 			_ = w.Call("mark", map[string]interface{}{"text": fmt.Sprintf("FLUSH_DONE %d", nflush)}, nil)
 		case "query":
-			if _, err := runQuery(w, Q{Index: "c07" + st.Index, Text: st.Text, Start: T0 - 10, End: T0 + 1000, Size: 100}); err != nil {
+			if _, err := runQuery(w, Q{Index: c07Idx(st.Index), Text: st.Text, Start: T0 - 10, End: T0 + 1000, Size: 100}); err != nil {
 				return nil, dir, cleanup, err
 			}
 		}
@@ -257,7 +265,7 @@ func c07Recover(c *c07Crash, rep *kernel.Report) (*Fail, error) {
 	indexes := map[string]bool{}
 	for _, st := range c.History.Steps {
 		if st.Op == "ingest" {
-			indexes["c07"+st.Index] = true
+			indexes[c07Idx(st.Index)] = true
 		}
 	}
 	allIdx := strings.Join(sortedKeys(indexes), ",")
